@@ -78,6 +78,7 @@ type KnownFinding struct {
 	What       string `json:"what"`
 	Status     string `json:"status"` // known | fixed
 	Commit     string `json:"commit,omitempty"`
+	Replay     string `json:"replay,omitempty"` // in-package test (relative to /verif) that fails on a tree with this defect
 }
 
 func loadKnownFindings(verif string) []KnownFinding {
@@ -100,10 +101,17 @@ func (r *Report) finish() int {
 	exit := 0
 	replayDir := filepath.Join(r.outDir, "replay")
 	os.MkdirAll(replayDir, 0o755)
+	replayOverride := ""
 	violation := func(name, detail, body string, noInput bool) {
 		exit = 1
 		f := filepath.Join(replayDir, sanitizeFile(name)+".txt")
 		os.WriteFile(f, []byte("failed obligation: "+name+"\nproperty: "+r.ID+"\n"+detail+"\n\n"+body), 0o644)
+		if replayOverride != "" {
+			// a recorded in-package test reproduces the violation on the real code: that test is the replay
+			// (the .txt file with the obligation and the solver output stays next to it)
+			f = replayOverride
+			replayOverride = ""
+		}
 		line := fmt.Sprintf("VIOLATION property=%s replay=%s obligation=%s", r.ID, f, name)
 		if noInput {
 			line += " no-failing-input-found"
@@ -171,12 +179,13 @@ func (r *Report) finish() int {
 		noInput := true
 		if s.Status == "failed" && s.Model != "" {
 			body = "solver output (" + s.Solver + "):\n" + s.Model
-			if rp, ok := tryReplay(r, s); ok {
-				body = rp + "\n" + body
-				noInput = false
-			}
 		} else {
 			body = "solver output: " + s.Detail
+		}
+		if file, out, ok := recordedReplay(r, known, s.Name); ok {
+			body = "recorded replay " + file + " FAILS on this tree (go test -overlay, real code):\n" + out + "\n" + body
+			noInput = false
+			replayOverride = file
 		}
 		violation(s.Name, fmt.Sprintf("status=%s smt=%s", s.Status, s.File), body, noInput)
 	}
@@ -244,5 +253,35 @@ func (r *Report) finish() int {
 
 func round3(f float64) float64 { return float64(int(f*1000+0.5)) / 1000 }
 
-// tryReplay is filled in by replay.go
-var tryReplay = func(r *Report, s *SolveResult) (string, bool) { return "", false }
+// recordedReplay: when a failed obligation is one for which known_findings.json records an in-package
+// replay test (a defect found earlier through exactly this obligation), that test is run against the
+// tree under check; if it fails there, it is a concrete failing input for the violation.
+var replayRan = map[string]string{}
+
+func recordedReplay(r *Report, known []KnownFinding, obligation string) (string, string, bool) {
+	base := obligation
+	for _, k := range known {
+		if k.Property != r.ID || k.Replay == "" {
+			continue
+		}
+		if k.Obligation != base && !strings.HasPrefix(base, k.Obligation+".") && !strings.HasPrefix(k.Obligation, base+".") {
+			continue
+		}
+		file := filepath.Join(r.verif, k.Replay)
+		out, done := replayRan[file]
+		if !done {
+			cmd := exec.Command("sh", filepath.Join(r.verif, "replay.sh"), file)
+			cmd.Env = append(os.Environ(), "VERIF_REPO="+r.repo, "GOVC_TIMEOUT=120s")
+			b, _ := cmd.CombinedOutput()
+			out = string(b)
+			replayRan[file] = out
+		}
+		if strings.Contains(out, "--- FAIL") || strings.Contains(out, "panic:") {
+			if len(out) > 4000 {
+				out = out[:4000] + "\n..."
+			}
+			return file, out, true
+		}
+	}
+	return "", "", false
+}
